@@ -8,7 +8,9 @@
 (* applies the commands it queued, puts the system back and returns its    *)
 (* output.  Keys: "f*" = function type (syscall), "x*" = exclusive         *)
 (* function type (syscall; may call immediately inside its body), "n*" =   *)
-(* name + type (named_syscall), "s*" = spawned id (spawned_syscall: Err    *)
+(* name + type (named_syscall), "o*" = syscall_once (a fresh system every   *)
+(* call, never cached, even when the same function type is cached by       *)
+(* syscall), "s*" = spawned id (spawned_syscall: Err                       *)
 (* without running when the id is missing or currently running).           *)
 (* Every system increments a Local and returns it, so the value returned   *)
 (* identifies the state that served the call.                              *)
@@ -131,8 +133,9 @@ Return(fr) ==
             /\ seen' = IF salive[fr.key] THEN [seen EXCEPT ![fr.key] = fr.mark0] ELSE seen
             /\ UNCHANGED salive
        ELSE /\ cache' = IF "named_keep_first" \in Mutants /\ Kind(fr.key) = "n" /\ cache[fr.key] >= 0 THEN cache
+                        ELSE IF Kind(fr.key) = "o" THEN cache            \* syscall_once: the system is not kept
                         ELSE [cache EXCEPT ![fr.key] = fr.local]
-            /\ seen' = IF "named_keep_first" \in Mutants /\ Kind(fr.key) = "n" /\ cache[fr.key] >= 0 THEN seen
+            /\ seen' = IF ("named_keep_first" \in Mutants /\ Kind(fr.key) = "n" /\ cache[fr.key] >= 0) \/ Kind(fr.key) = "o" THEN seen
                        ELSE [seen EXCEPT ![fr.key] = fr.mark0]
             /\ UNCHANGED <<salive, sout>>
     /\ UNCHANGED <<mark, ncall>>
